@@ -248,7 +248,12 @@ impl IndexEntry {
 /// Index file manager
 pub struct IndexManager {
     /// Map of index ID to loaded index data
+    #[cfg(not(kani))]
     indices: BTreeMap<u8, IndexFile>,
+    /// Verification scale model (compiled only by the Kani model checker): same map contract,
+    /// restricted to one bucket (see `OneBucketMap`).
+    #[cfg(kani)]
+    indices: OneBucketMap,
     /// Directory containing index files
     base_path: PathBuf,
 }
@@ -267,7 +272,10 @@ impl IndexManager {
     /// Create new index manager for a directory
     pub fn new(base_path: impl AsRef<Path>) -> Self {
         Self {
+            #[cfg(not(kani))]
             indices: BTreeMap::new(),
+            #[cfg(kani)]
+            indices: OneBucketMap::new(),
             base_path: base_path.as_ref().to_path_buf(),
         }
     }
@@ -1182,6 +1190,104 @@ impl IndexManager {
     }
 }
 
+/// Verification scale model of the bucket map (compiled only by the Kani model checker): the
+/// subset of the `BTreeMap<u8, IndexFile>` API that `IndexManager` uses, with the same contract
+/// as long as a single bucket id is in use. A second distinct bucket id panics. The value lives
+/// in a plain struct field so that the model checker sees the section shapes.
+#[cfg(kani)]
+struct OneBucketMap {
+    slot: Option<(u8, IndexFile)>,
+}
+
+#[cfg(kani)]
+struct OneBucketEntry<'a> {
+    map: &'a mut OneBucketMap,
+    key: u8,
+}
+
+#[cfg(kani)]
+impl<'a> OneBucketEntry<'a> {
+    fn or_insert_with<F: FnOnce() -> IndexFile>(self, default: F) -> &'a mut IndexFile {
+        if self.map.get(&self.key).is_none() {
+            self.map.insert(self.key, default());
+        }
+        match &mut self.map.slot {
+            Some((_, v)) => v,
+            None => unreachable!("slot was just filled"),
+        }
+    }
+}
+
+#[cfg(kani)]
+#[allow(dead_code)]
+impl OneBucketMap {
+    const fn new() -> Self {
+        Self { slot: None }
+    }
+
+    fn len(&self) -> usize {
+        usize::from(self.slot.is_some())
+    }
+
+    fn insert(&mut self, key: u8, value: IndexFile) -> Option<IndexFile> {
+        match &self.slot {
+            Some((k, _)) if *k != key => panic!("scale model: one bucket"),
+            _ => {}
+        }
+        self.slot.replace((key, value)).map(|(_, v)| v)
+    }
+
+    fn get(&self, key: &u8) -> Option<&IndexFile> {
+        match &self.slot {
+            Some((k, v)) if *k == *key => Some(v),
+            _ => None,
+        }
+    }
+
+    fn get_mut(&mut self, key: &u8) -> Option<&mut IndexFile> {
+        match &mut self.slot {
+            Some((k, v)) if *k == *key => Some(v),
+            _ => None,
+        }
+    }
+
+    fn entry(&mut self, key: u8) -> OneBucketEntry<'_> {
+        OneBucketEntry { map: self, key }
+    }
+
+    fn iter(&self) -> impl Iterator<Item = (&u8, &IndexFile)> + '_ {
+        self.slot.iter().map(|(k, v)| (k, v))
+    }
+
+    fn keys(&self) -> impl Iterator<Item = &u8> + '_ {
+        self.slot.iter().map(|(k, _)| k)
+    }
+
+    fn values(&self) -> impl Iterator<Item = &IndexFile> + '_ {
+        self.slot.iter().map(|(_, v)| v)
+    }
+
+    fn values_mut(&mut self) -> impl Iterator<Item = &mut IndexFile> + '_ {
+        self.slot.iter_mut().map(|(_, v)| v)
+    }
+}
+
+#[cfg(kani)]
+impl<'a> IntoIterator for &'a OneBucketMap {
+    type Item = (&'a u8, &'a IndexFile);
+    type IntoIter = std::iter::Map<
+        std::option::Iter<'a, (u8, IndexFile)>,
+        fn(&'a (u8, IndexFile)) -> (&'a u8, &'a IndexFile),
+    >;
+
+    fn into_iter(self) -> Self::IntoIter {
+        fn split(e: &(u8, IndexFile)) -> (&u8, &IndexFile) {
+            (&e.0, &e.1)
+        }
+        self.slot.iter().map(split as fn(&'a (u8, IndexFile)) -> (&'a u8, &'a IndexFile))
+    }
+}
+
 /// Verification hooks (compiled only by the Kani model checker; add-only, no effect on normal
 /// builds).
 #[cfg(kani)]
@@ -1216,7 +1322,7 @@ impl IndexManager {
         for u in updates {
             update_section.append(u);
         }
-        let mut indices = BTreeMap::new();
+        let mut indices = OneBucketMap::new();
         indices.insert(
             bucket,
             IndexFile {
